@@ -6,7 +6,7 @@ from pvlib import hx
 LEVEL = "proof"
 RULE = ("real bin/cache with scripted children (identity / upper / prefix / rev transforms; eager, block and read-all buffering) that "
         "log their stdin: every duplicate pattern of length <= 6 (quick) / 7 over 3 keys, seeded inputs with > 4096 distinct lines and "
-        "> 64 KiB, key specs -k/-t; stdout must be the child's answer to the first line with the same key, the child must have "
+        "> 64 KiB, key specs -k/-t, and inputs whose producer stalls at and around the queue-page multiples after the 4096-line flush; stdout must be the child's answer to the first line with the same key, the child must have "
         "received exactly the first-occurrence lines in order, exit status = the child's; the Lean model (PV.Cache.run) must agree; "
         "the PV_TRACE log must be accepted by the wrapper automaton; non-trivial = distinct (key spec, child, input)")
 ASSUMPTIONS = ["child answers are compared as C02 records (a trailing CR in an answer is stripped by the reader on every path)",
@@ -44,25 +44,48 @@ def run(ctx):
     cases.append(([], lambda l: l, big))
     cases.append((["-k", "2", "-t", " "], lambda l: (l.split(b" ") + [b""])[1], big))
     cases.append(([], lambda l: l, [b"q" * 70000, b"r", b"q" * 70000, b"s" * 300000]))
-    for i, (args, keyf, lines) in enumerate(cases):
+    # paced input: the upstream producer stalls at chosen lines so that the output thread catches up with the input
+    # thread.  It can catch up completely only when everything sent so far has been flushed to the child, i.e. after
+    # the explicit flush at the 4096th new line followed by duplicates only; the stalls sit at and around the multiples
+    # of the queue page size (1023 entries, util/pcqueue.hh) and at seeded positions.
+    paced = [b"row %d" % i for i in range(4096)] + [b"row %d" % ((i * 7) % 4096) for i in range(2300)]
+    stalls = sorted(set([1023 * k + d for k in range(1, 7) for d in (-1, 0, 1)] + [4095, 4096, 4097] + [rng.randrange(1, len(paced)) for _ in range(4)]))
+    cases.append(([], lambda l: l, paced, stalls))
+    cases.append((["-k", "2", "-t", " "], lambda l: (l.split(b" ") + [b""])[1], paced, stalls[1::2]))
+    for i, case in enumerate(cases):
+        args, keyf, lines = case[:3]
+        stall_lines = case[3] if len(case) > 3 else None
         fn = rng.choice(["id", "upper", "prefix", "rev"])
         pol = rng.choice([["eager"], ["block", "3"], ["readall"]])
         data = b"".join(l + b"\n" for l in lines)
         log = os.path.join(ctx.tmp, "child_in.log")
         if os.path.exists(log):
             os.unlink(log)
-        st, out, err, trace = wrappers.run_traced(ctx, ["cache"] + args, data, pol, child_fn=fn, log_child=log, timeout=60)
+        pauses = None
+        if stall_lines:
+            offs, o = [], 0
+            for l in lines:
+                o += len(l) + 1
+                offs.append(o)
+            pauses = [offs[k - 1] for k in stall_lines if 0 < k <= len(offs)]
+            pol = ["eager"]
+        st, out, err, trace = wrappers.run_traced(ctx, ["cache"] + args, data, pol, child_fn=fn, log_child=log, timeout=60, pauses=pauses)
         ctx.count("cache-run", 1, [(tuple(args), fn, tuple(pol), data)])
+        if pauses:
+            ctx.cov["paced_runs"] = ctx.cov.get("paced_runs", 0) + 1
         want, sent = expected(lines, keyf, fn)
         wantb = b"".join(l + b"\n" for l in want)
         got_sent = open(log, "rb").read() if os.path.exists(log) else b""
         rp = {"argv": ["cache"] + args + ["python3", "harness/children/child.py"] + pol, "env": {"PV_CHILD_FN": fn}, "stdin_hex": hx(data)[:200000], "status": st}
+        if pauses:
+            rp["stdin_stalls_at_byte_offsets"] = pauses
+            rp["stderr_tail"] = err.decode(errors="replace")[-300:]
         if st != 0 or out != wantb:
             ol, wl = out.split(b"\n"), wantb.split(b"\n")
             k = next((j for j, (a, b) in enumerate(zip(ol, wl)) if a != b), min(len(ol), len(wl)))
             rp.update({"line": k, "got": hx(ol[k][:200]) if k < len(ol) else None, "want": hx(wl[k][:200]) if k < len(wl) else None})
             pvlib.report_violation(ctx, f"cache-out:{i}:{hx(data)[:60]}", rp,
-                                   summary=f"cache {' '.join(args)} (child {fn}, {' '.join(pol)}): output line {k} is not the child's answer to the first line with that key (status {st})")
+                                   summary=f"cache {' '.join(args)} (child {fn}, {' '.join(pol)}): output line {k} is not the child's answer to the first line with that key (status {st}{', input paced' if pauses else ''})")
             continue
         if got_sent != b"".join(l + b"\n" for l in sent):
             rp.update({"child_received": hx(got_sent[:2000]), "first_occurrences": hx(b"".join(l + b"\n" for l in sent)[:2000])})
@@ -88,5 +111,6 @@ def run(ctx):
 def replay(ctx, rp):
     argv = rp["argv"]
     i = argv.index("python3")
-    st, out, err, trace = wrappers.run_traced(ctx, argv[:i], pvlib.unhx(rp["stdin_hex"]), argv[i + 2:], child_fn=rp.get("env", {}).get("PV_CHILD_FN", "id"), timeout=30)
+    st, out, err, trace = wrappers.run_traced(ctx, argv[:i], pvlib.unhx(rp["stdin_hex"]), argv[i + 2:], child_fn=rp.get("env", {}).get("PV_CHILD_FN", "id"), timeout=30,
+                                              pauses=rp.get("stdin_stalls_at_byte_offsets"))
     print("status", st, "stdout", out[:500])
